@@ -122,6 +122,10 @@ func (m *muxer) run() {
 	for _, sx := range m.sessionsBySecret {
 		sx.close2(fmt.Errorf("muxer destroyed"))
 	}
+	// closed sessions must not be reachable anymore: the muxer stays in the
+	// server's list until closeMuxer() is processed, and a kick received in
+	// the meantime would close them a second time.
+	clear(m.sessionsBySecret)
 
 	if m.cdnSession != nil {
 		m.cdnSession.close2(fmt.Errorf("muxer destroyed"))
